@@ -4,6 +4,7 @@ import (
 	"bytes"
 	"fmt"
 	"os"
+	"sort"
 	"time"
 
 	"github.com/KevoDB/kevo/pkg/common/iterator"
@@ -40,8 +41,15 @@ func (e *DefaultCompactionExecutor) CompactFiles(task *CompactionTask) ([]string
 	var iterators []iterator.Iterator
 
 	// Add iterators from both levels
+	// The merged iterator lets earlier sources win, so sources must be ordered
+	// newest first: lower levels before higher levels and, inside a level, the
+	// most recently written file first
 	for level := 0; level <= task.TargetLevel; level++ {
-		for _, file := range task.InputFiles[level] {
+		files := append([]*SSTableInfo(nil), task.InputFiles[level]...)
+		sort.SliceStable(files, func(i, j int) bool {
+			return files[i].Timestamp > files[j].Timestamp
+		})
+		for _, file := range files {
 			// We need an iterator that preserves delete markers
 			if file.Reader != nil {
 				iterators = append(iterators, file.Reader.NewIterator())
